@@ -1,5 +1,6 @@
 // C10 harness: container / index cores driven over exhaustive small shapes under ASan+UBSan.
 #include "common/verif.hpp"
+#include <algorithm>
 #include <AIToolbox/Factored/Utils/Core.hpp>
 #include "common/gen.hpp"
 #include <AIToolbox/Seeder.hpp>
@@ -86,6 +87,40 @@ static F::PartialKeys randomVars(Rng & rng, size_t n) {
     if (k.empty()) k.push_back(rng.below(n));
     return k;
 }
+
+// getVariables(const FactorItList &) — the union of the variables of a list of factors (built with the shared helper
+// set_union_inplace): must equal the sorted duplicate-free union computed independently, for factor lists of mixed widths
+// in every order (narrow-then-wide, interleaved new variables, repeated variables).
+static bool unionOfFactorsOk(const FG & g, size_t nvars) {
+    bool ok = true;
+    for (size_t v = 0; v < nvars; ++v) {
+        const auto & fs = g.getFactors(v);
+        std::vector<size_t> ref;
+        for (auto f : fs) for (auto x : g.getVariables(f)) ref.push_back(x);
+        std::sort(ref.begin(), ref.end()); ref.erase(std::unique(ref.begin(), ref.end()), ref.end());
+        const auto got = g.getVariables(fs);
+        ok = ok && std::vector<size_t>(got.begin(), got.end()) == ref;
+    }
+    return ok;
+}
+static void factorgraph_union_case(Rng & rng) {
+    const size_t n = (size_t)rng.range(3, 12);
+    FG g(n);
+    const int nf = (int)rng.range(2, 8);
+    for (int i = 0; i < nf; ++i) {
+        F::PartialKeys k;
+        const unsigned shape = (unsigned)rng.below(4);
+        if (shape == 0) k.push_back(rng.below(n));                                    // unary
+        else if (shape == 1) { size_t w = 1 + rng.below(n); for (size_t x = 0; x < w; ++x) k.push_back(x); }   // prefix of width w
+        else if (shape == 2) { size_t w = 1 + rng.below(n - 1); for (size_t x = 0; x < w; ++x) k.push_back(x); k.push_back(n - 1); }   // low block + the last variable
+        else k = randomVars(rng, n);
+        std::sort(k.begin(), k.end()); k.erase(std::unique(k.begin(), k.end()), k.end());
+        g.getFactor(k);
+    }
+    Line r; r << "C10" << "range" << "FactorGraph.getVariables(factors)_is_sorted_union" << "|" << unionOfFactorsOk(g, n); r.emit();
+    if (rng.coin()) { g.erase(rng.below(n)); Line r2; r2 << "C10" << "range" << "FactorGraph.getVariables(factors)_is_sorted_union_after_erase" << "|" << unionOfFactorsOk(g, n); r2.emit(); }
+}
+
 static void factorgraph_sequence(Rng & rng) {
     // 1. a bigger graph whose erased variables fill the pool with nodes carrying LARGE variable indices
     size_t nb = (size_t)rng.range(4, 9);
@@ -109,7 +144,7 @@ static void factorgraph_sequence(Rng & rng) {
 void verif::verif_case(Rng & rng, long idx, const std::string & tier) {
     const long nShape = (long)g_spaces.size() + (tier == "thorough" ? 2000 : 200);
     const long nPlan = nShape + (tier == "thorough" ? 400 : 60);
-    if (idx >= nPlan) { factorgraph_sequence(rng); return; }
+    if (idx >= nPlan) { factorgraph_sequence(rng); factorgraph_union_case(rng); return; }
     if (idx >= nShape) {
         namespace P = AIToolbox::POMDP;
         AIToolbox::Seeder::setRootSeed((unsigned)rng.next());
